@@ -95,8 +95,9 @@ type EventManager struct {
 // regarding the triggered callback function.
 func (em *EventManager) updateState(state ConnState) {
 	em.CurrentState.setState(state)
-	if em.Handler != nil {
-		em.Handler(Event{State: em.CurrentState})
+	// The handler can be removed concurrently (StreamManager.Stop): read it once
+	if handler := em.Handler; handler != nil {
+		handler(Event{State: em.CurrentState})
 	}
 }
 
@@ -104,8 +105,9 @@ func (em *EventManager) updateState(state ConnState) {
 // regarding the triggered callback function.
 func (em *EventManager) disconnected(state SMState) {
 	em.CurrentState.setState(StateDisconnected)
-	if em.Handler != nil {
-		em.Handler(Event{State: em.CurrentState, SMState: state})
+	// The handler can be removed concurrently (StreamManager.Stop): read it once
+	if handler := em.Handler; handler != nil {
+		handler(Event{State: em.CurrentState, SMState: state})
 	}
 }
 
@@ -113,8 +115,9 @@ func (em *EventManager) disconnected(state SMState) {
 // regarding the triggered callback function.
 func (em *EventManager) streamError(error, desc string) {
 	em.CurrentState.setState(StateStreamError)
-	if em.Handler != nil {
-		em.Handler(Event{State: em.CurrentState, StreamError: error, Description: desc})
+	// The handler can be removed concurrently (StreamManager.Stop): read it once
+	if handler := em.Handler; handler != nil {
+		handler(Event{State: em.CurrentState, StreamError: error, Description: desc})
 	}
 }
 
